@@ -3,11 +3,11 @@ package main
 // SSA -> SMT verification-condition generator (DESIGN.md section 1.3).
 
 import (
-	"os"
-	"regexp"
 	"fmt"
 	"go/token"
 	"go/types"
+	"os"
+	"regexp"
 	"sort"
 	"strings"
 
@@ -22,6 +22,7 @@ type Val struct {
 	ge    types.Type // element / value type
 	gkt   types.Type // key type (gmap)
 	gs    string     // explicit sort for ghost values
+	cell  ssa.Value  // the variable cell this pointer value names (captured variables in closure contracts)
 }
 
 // State maps heap keys to SMT terms.  Total over Gen.universe in pass 2.
@@ -60,52 +61,54 @@ type Oblig struct {
 
 type KeyInfo struct {
 	sort string
-	kind string // field cell arr mdom mval ghost alloc visited
-	ref  string // "" | "ptr" | "slice": the stored values are references (closed-heap invariant)
-	valT string // type of the stored values
+	kind string   // field cell arr mdom mval ghost alloc visited
+	ref  string   // "" | "ptr" | "slice": the stored values are references (closed-heap invariant)
+	sub  []subRef // struct-valued keys: the references stored inside the struct value
+	valT string   // type of the stored values
 }
 
 // Gen is one verification unit: a function under contract (with its inlined callees).
 type Gen struct {
-	ld       *Loader
-	cs       *ContractSet
-	sorts    *Sorts
-	lines    []string // definitions in order
-	n        int
-	seq      int
-	assumps  []Assump
-	obligs   []*Oblig
-	keys     map[string]KeyInfo // universe
-	keyOrder []string
-	pass     int
-	loopMods map[string]map[string]bool // loop id -> keys written (from pass 1)
-	loopAll  map[string]bool
-	curLoops []string
-	declared map[string]bool
-	rootFn   *ssa.Function
-	rootC    *Contract
-	notes    map[string]bool // abstractions / trusted items used
-	trusted  map[string]bool
-	globals  map[string]string
-	newKeys  bool
-	funcIDs  map[string]int
-	covers   []*Oblig
-	boxAx    map[string]bool
-	unsupported []string
-	ufs      map[string]ufDecl
-	allocKinds map[string]bool
-	ordinals map[string]int
-	obNames  map[string]int
-	curBlk   int                  // index of the root function's block being generated (-1 outside)
-	rootReach map[int]map[int]bool // forward reachability between blocks of the root function (back edges cut)
-	loopAllBut map[string]map[string]bool // loop id -> everything is modified except these keys
-	wreach   map[*ssa.Function]bool // functions that can reach a writer of the root's private keys (private.go)
-	macros   map[string]string // array-valued define-funs: name -> sort
-	atoms    map[string]string // macro name -> constant equal to it (for patterns)
-	msgUniSeed []types.Type    // message types that received a type tag in the previous pass
-	msgUni   []types.Type      // message types mentioned by the package under verification (msgmodel.go)
-	constClosure map[ssa.Value]*closureInfo // write-once cells holding a known closure
-	constVal map[ssa.Value]Val // write-once local variable cells (see constcell.go): their content as a value
+	ld           *Loader
+	cs           *ContractSet
+	sorts        *Sorts
+	lines        []string // definitions in order
+	n            int
+	seq          int
+	assumps      []Assump
+	obligs       []*Oblig
+	keys         map[string]KeyInfo // universe
+	keyOrder     []string
+	pass         int
+	loopMods     map[string]map[string]bool // loop id -> keys written (from pass 1)
+	loopAll      map[string]bool
+	curLoops     []string
+	declared     map[string]bool
+	rootFn       *ssa.Function
+	rootC        *Contract
+	notes        map[string]bool // abstractions / trusted items used
+	trusted      map[string]bool
+	globals      map[string]string
+	newKeys      bool
+	funcIDs      map[string]int
+	covers       []*Oblig
+	boxAx        map[string]bool
+	unsupported  []string
+	ufs          map[string]ufDecl
+	allocKinds   map[string]bool
+	ordinals     map[string]int
+	obNames      map[string]int
+	curBlk       int                               // index of the root function's block being generated (-1 outside)
+	rootReach    map[int]map[int]bool              // forward reachability between blocks of the root function (back edges cut)
+	loopAllBut   map[string]map[string]bool        // loop id -> everything is modified except these keys
+	wreachKey    map[string]map[*ssa.Function]bool // per private key
+	wreach       map[*ssa.Function]bool            // functions that can reach a writer of the root's private keys (private.go)
+	macros       map[string]string                 // array-valued define-funs: name -> sort
+	atoms        map[string]string                 // macro name -> constant equal to it (for patterns)
+	msgUniSeed   []types.Type                      // message types that received a type tag in the previous pass
+	msgUni       []types.Type                      // message types mentioned by the package under verification (msgmodel.go)
+	constClosure map[ssa.Value]*closureInfo        // write-once cells holding a known closure
+	constVal     map[ssa.Value]Val                 // write-once local variable cells (see constcell.go): their content as a value
 }
 
 func (g *Gen) note(s string) { g.notes[s] = true }
@@ -204,6 +207,31 @@ func refKind(t types.Type) string {
 	return ""
 }
 
+// subRef: a reference-typed field (possibly nested) of a struct value: the selector chain that reaches it.
+type subRef struct {
+	sels []string // datatype selectors, outermost struct first
+	ref  string   // "ptr" | "slice"
+	valT string
+}
+
+func (g *Gen) subRefs(t types.Type, prefix []string, depth int) []subRef {
+	st, ok := t.Underlying().(*types.Struct)
+	if !ok || depth > 3 {
+		return nil
+	}
+	var out []subRef
+	for i := 0; i < st.NumFields(); i++ {
+		ft := st.Field(i).Type()
+		sels := append(append([]string{}, prefix...), g.sorts.structSel(t, i))
+		if r := refKind(ft); r != "" {
+			out = append(out, subRef{sels: sels, ref: r, valT: types.TypeString(unaliasDeep(ft), nil)})
+		} else if _, ok := ft.Underlying().(*types.Struct); ok {
+			out = append(out, g.subRefs(ft, sels, depth+1)...)
+		}
+	}
+	return out
+}
+
 func (g *Gen) regKeyT(k, sort, kind string, valT types.Type) {
 	if _, ok := g.keys[k]; ok {
 		return
@@ -211,6 +239,11 @@ func (g *Gen) regKeyT(k, sort, kind string, valT types.Type) {
 	g.regKey(k, sort, kind)
 	ki := g.keys[k]
 	ki.ref = refKind(valT)
+	if ki.ref == "" && strings.HasPrefix(sort, "(Array Int ") && g.sortOf(valT) != "Int" {
+		if _, ok := valT.Underlying().(*types.Struct); ok {
+			ki.sub = g.subRefs(valT, nil, 0)
+		}
+	}
 	ki.valT = types.TypeString(unaliasDeep(valT), nil)
 	g.keys[k] = ki
 }
@@ -227,6 +260,7 @@ func (g *Gen) markAlloc(t types.Type) {
 func (g *Gen) heapBound(k, term, alloc string) {
 	ki := g.keys[k]
 	if ki.ref == "" {
+		g.heapBoundSub(ki, term, alloc)
 		return
 	}
 	if ki.ref == "seq" {
@@ -254,6 +288,45 @@ func (g *Gen) heapBound(k, term, alloc string) {
 		ks = firstSort(ks)
 		g.assumeRaw(fmt.Sprintf("(forall ((|o| Int) (|k| %s)) (! (<= %s %s) :pattern ((select (select %s |o|) |k|))))", ks, sel(fmt.Sprintf("(select (select %s |o|) |k|)", term)), alloc, term))
 	}
+}
+
+// heapBoundSub: the closed-heap invariant for references stored inside struct values.
+func (g *Gen) heapBoundSub(ki KeyInfo, term, alloc string) {
+	if len(ki.sub) == 0 {
+		return
+	}
+	var conj []string
+	var bind, read string
+	switch ki.kind {
+	case "field", "cell":
+		bind, read = "((|o| Int))", "(select %s |o|)"
+	case "arr":
+		bind, read = "((|o| Int) (|i| Int))", "(select (select %s |o|) |i|)"
+	case "mval", "umap":
+		ks := firstSort(ki.sort[len("(Array Int (Array "):])
+		bind, read = "((|o| Int) (|k| "+ks+"))", "(select (select %s |o|) |k|)"
+	default:
+		return
+	}
+	term = g.atomize(term)
+	rd := fmt.Sprintf(read, term)
+	for _, sr := range ki.sub {
+		if g.pass != 1 && !g.allocKinds[sr.valT] {
+			continue
+		}
+		x := rd
+		for _, s := range sr.sels {
+			x = "(" + s + " " + x + ")"
+		}
+		if sr.ref == "slice" {
+			x = "(sarr " + x + ")"
+		}
+		conj = append(conj, fmt.Sprintf("(<= %s %s)", x, alloc))
+	}
+	if len(conj) == 0 {
+		return
+	}
+	g.assumeRaw(fmt.Sprintf("(forall %s (! (and %s) :pattern (%s)))", bind, strings.Join(conj, " "), rd))
 }
 
 // firstSort returns the first complete sort expression at the start of s.
@@ -410,7 +483,7 @@ func (g *Gen) havocAllExcept(s *State, why string, skip map[string]bool) {
 	// allocation counter only grows
 	g.assumeRaw(fmt.Sprintf("(<= %s %s)", old, g.get(s, "$alloc")))
 	for _, k := range g.keyOrder {
-		if g.keys[k].ref != "" {
+		if g.keys[k].hasRef() {
 			g.heapBound(k, g.get(s, k), g.get(s, "$alloc"))
 		}
 	}
@@ -514,15 +587,16 @@ type pathStep struct {
 }
 
 type deferRec struct {
-	instr *ssa.Defer
-	cond  string // reach of the block where it was registered
-	args  []Val
+	instr  *ssa.Defer
+	cond   string // reach of the block where it was registered
+	args   []Val
 	callee Val
 }
 
 type closureInfo struct {
 	fn       *ssa.Function
 	bindings []Val
+	cells    []ssa.Value // the captured variables (ssa bindings)
 }
 
 type retRec struct {
@@ -533,58 +607,61 @@ type retRec struct {
 }
 
 type FnCtx struct {
-	g        *Gen
-	fn       *ssa.Function
-	c        *Contract
-	prefix   string
-	depth    int
-	vals     map[ssa.Value]Val
-	locs     map[ssa.Value]*Loc
-	closures map[ssa.Value]*closureInfo
-	reach    map[*ssa.BasicBlock]string
-	exit     map[*ssa.BasicBlock]*State
-	edge     map[[2]int]string
-	cur      *State
-	curReach string
-	curBlock *ssa.BasicBlock
-	entry    *State
-	defers   []deferRec
-	rets     []retRec
-	params   map[string]Val
-	inlined  bool
-	backEdge map[[2]int]bool
-	headers  map[*ssa.BasicBlock]int // header -> loop ordinal (1-based, block order)
-	loopsOf  map[*ssa.BasicBlock][]string
-	hdrVars  map[*ssa.BasicBlock]map[string]Val
-	noPanic  bool
-	iters    map[ssa.Value]*iterInfo
-	parent   *FnCtx
-	recvName string
-	named    map[string]*ssa.Alloc
-	lastVars map[string]Val
-	preVals  map[ssa.Value]Val
-	callContracts map[ssa.Instruction]*Contract
-	funcVals []funcVal
-	privCells  []privCell
-	privDone   bool
-	privKeys     map[string]bool
-	privKeysDone bool
-	assertDone   bool
-	debugNames map[string]Val
-	synthN   int
-	rangeN   int
-	lockSnap map[string]*State
+	g              *Gen
+	fn             *ssa.Function
+	c              *Contract
+	prefix         string
+	depth          int
+	vals           map[ssa.Value]Val
+	locs           map[ssa.Value]*Loc
+	closures       map[ssa.Value]*closureInfo
+	reach          map[*ssa.BasicBlock]string
+	exit           map[*ssa.BasicBlock]*State
+	edge           map[[2]int]string
+	cur            *State
+	curReach       string
+	curBlock       *ssa.BasicBlock
+	entry          *State
+	defers         []deferRec
+	rets           []retRec
+	params         map[string]Val
+	inlined        bool
+	backEdge       map[[2]int]bool
+	headers        map[*ssa.BasicBlock]int // header -> loop ordinal (1-based, block order)
+	loopsOf        map[*ssa.BasicBlock][]string
+	loopPre        map[*ssa.BasicBlock]*State // state in which each loop was entered
+	hdrVars        map[*ssa.BasicBlock]map[string]Val
+	noPanic        bool
+	iters          map[ssa.Value]*iterInfo
+	parent         *FnCtx
+	recvName       string
+	named          map[string]*ssa.Alloc
+	lastVars       map[string]Val
+	preVals        map[ssa.Value]Val
+	callContracts  map[ssa.Instruction]*Contract
+	funcVals       []funcVal
+	privCells      []privCell
+	privDone       bool
+	privKeys       map[string]bool
+	privKeysDone   bool
+	assertDone     bool
+	calleeFn       *ssa.Function // the function whose contract is being applied (resolved closures included)
+	pendingClosure *closureInfo  // closure whose contract is being applied (its free variables are bound by name)
+	debugNames     map[string]Val
+	synthN         int
+	rangeN         int
+	lockSnap       map[string]*State
 	pendingResults []Val
 }
 
 type iterInfo struct {
-	isMap   bool
-	m       Val
-	visKey  string
-	mt      *types.Map
+	isMap      bool
+	m          Val
+	visKey     string
+	mt         *types.Map
 	domAtStart string
-	cntKey  string
-	str     bool
+	cntKey     string
+	str        bool
 }
 
 func (fc *FnCtx) name(v ssa.Value) string {
@@ -896,3 +973,5 @@ func (g *Gen) closureStaysLocal(mc *ssa.MakeClosure) bool {
 	}
 	return true
 }
+
+func (ki KeyInfo) hasRef() bool { return ki.ref != "" || len(ki.sub) > 0 }
